@@ -8,6 +8,7 @@ restriction `self[mdp.state_list,][:,mdp.action_list]` (restrict) from the polic
 Violation search / second opinion: an exact oracle in Python (fractions.Fraction): linear solve for
 gamma < 1, chain analysis (reachability, closed classes, transient system) for gamma = 1.
 """
+import os
 from fractions import Fraction as F
 import vlib
 from vlib import q, qlist, qmat, qten, nat, natlist, bmat, blist, coqlist
@@ -157,7 +158,7 @@ def gen_near_one_case(rng):
 def gen_case(rng, tier):
     if rng.random() < .05:
         return gen_watch_case(rng)
-    if rng.random() < .06:
+    if rng.random() < float(os.environ.get("C02_NEAR_ONE_SHARE", ".06")):     # env override: stress runs only
         return gen_near_one_case(rng)
     undisc = rng.random() < .45
     nmax = 5 if tier == "quick" else 7
